@@ -77,7 +77,11 @@ Definition core0 : list op :=
     Tx "bob" "PM" (WPm (PmRoute [{| so_in := "uusd"; so_out := "uom"; so_pool := "o.a" |}] None None (Some 500000000000000000))) [("uusd", 3000)];
     Tx "carol" "PM" (WPm (PmSwap "uom" None (Some 1) None "o.a")) [("uusd", 900000000)];     (* rejected: slippage *)
     Tx "alice" "FM" (WFm (FmPosCreate (Some "q") 86400 None)) [(lp0, 500000)];                 (* farm-manager side *)
+    Tx "carol" "FM" (WFm (FmCreateFarm {| fp_lp := lp0; fp_start := Some 1; fp_end := Some 5; fp_asset := ("uusdc", 4000); fp_id := Some "f" |}))
+       [("uom", 1000); ("uusdc", 4000)];
     Tx "alice" "FM" (WFm (FmPosClose "u-q" None)) [];
+    Tx "carol" "FM" (WFm (FmCloseFarm "m-f")) [];                                                 (* refund through a reply-on-error sub-message *)
+    Tx "alice" "FM" (WFm (FmPosWithdraw "u-q" (Some true))) [];                                   (* emergency exit: penalty to the fee collector *)
     Tx "alice" "PM" (WPm (PmWithdraw "o.a")) [(lp0, 1000000)] ].
 
 Definition ledger_statement : Prop :=
